@@ -61,7 +61,9 @@ def run(ctx):
                              {"arpa": "corpus/C03/f5_q.arpa", "opts": ["probbits=1", "backoffbits=8"]}))
     for mi in range(nmodels):
         big = (mi % 6 == 2)
-        m = lc.gen_model(rng, max_order=ctx.pick(5, 6), max_vocab=ctx.pick(8, 40), big=big)
+        hub = (mi % 12 == 5)
+        m = lc.gen_model(rng, max_order=ctx.pick(5, 6), max_vocab=ctx.pick(8, 40), big=big, hub=hub)
+        big = big or hub
         sess = lc.Session(ctx, m, "m%d" % mi)
         qs = lc.gen_queries(rng, m, ctx.pick(30, 120)) + (lc.ngram_queries(m) if big else [])
         if big:
